@@ -243,6 +243,157 @@ pub fn eval_parse(c: &ParseCase, obs: &mut Obs) -> Result<(), String> {
     }
 }
 
+// --- string tags one after the other at the same address ------------------------------
+
+#[derive(Clone, Debug, Serialize, Deserialize)]
+pub struct ParseSeq {
+    pub steps: Vec<ParseCase>,
+}
+
+/// The tags are written one after the other to the same address and parsed in
+/// one process (a forked child): each text is what the rule gives for the bytes
+/// that are there *now*.
+fn eval_parse_seq(c: &ParseSeq, obs: &mut Obs) -> Result<(), String> {
+    for s in &c.steps {
+        if s.cut > s.content.0.len() || s.content.0.len() > 1 << 16 {
+            return Err("malformed case".into());
+        }
+    }
+    let cap = c.steps.iter().map(|s| parse_image(s).len()).max().unwrap_or(16) + 64;
+    let r = mb2_sandbox::run_child(|| {
+        let mut buf = Aligned::new(&vec![0xEEu8; cap]);
+        for (i, step) in c.steps.iter().enumerate() {
+            let img = parse_image(step);
+            let mut all = vec![0xEEu8; cap];
+            all[..img.len()].copy_from_slice(&img);
+            buf.overwrite(&all);
+            let fx = fixed(step.kind);
+            let want = string_rule(&img, fx, fx + step.cut);
+            let t = unsafe { exercise_single_tag(buf.as_ptr(), img.len(), step.kind, &MbiOpts { debug: false, max_steps: 16, typed_all: true }) };
+            let key = if step.kind == 2 { "t0.name" } else { "t0.cmdline" };
+            if t.get(key) != Some(&want) {
+                return format!("E string tag {} of {} at the same address (kind {}, declared size {}): expected {}, got {:?}", i + 1, c.steps.len(), step.kind, fx + step.cut, want.render(), t.get(key).map(|v| v.render())).into_bytes();
+            }
+        }
+        b"OK".to_vec()
+    });
+    match r {
+        mb2_sandbox::ChildResult::Done(b) if b == b"OK" => {}
+        mb2_sandbox::ChildResult::Done(b) => return Err(String::from_utf8_lossy(&b[2.min(b.len())..]).into_owned()),
+        mb2_sandbox::ChildResult::Signal(sig) => return Err(format!("{} string tags one after the other at the same address crashed the process (signal {sig})", c.steps.len())),
+        _ => {
+            obs.inconclusive("child did not report");
+            return Ok(());
+        }
+    }
+    let same_size = c.steps.windows(2).any(|w| w[0].kind == w[1].kind && w[0].cut == w[1].cut && w[0].content.0 != w[1].content.0);
+    obs.class(if same_size { "!same-size-other-content" } else { "different-sizes" });
+    if same_size {
+        obs.nontrivial(fnv(format!("{:?}", c.steps).as_bytes()));
+        obs.sample(json!({"declared_sizes": c.steps.iter().map(|s| fixed(s.kind) + s.cut).collect::<Vec<_>>()}));
+    }
+    Ok(())
+}
+
+fn strategy_parse_seq(_: &Ctx) -> BoxedStrategy<ParseSeq> {
+    // a tag with a text of 0..3000 bytes, then tags of the same kind and the same
+    // declared size whose text ends earlier, has no NUL, or is not UTF-8
+    (proptest::sample::select(KINDS.to_vec()), prop_oneof![2 => 0usize..64, 3 => 1000usize..3000], any::<u64>(), proptest::collection::vec((0u8..5, any::<u16>()), 1..=3))
+        .prop_map(|(kind, n, key, vars)| {
+            let text: Vec<u8> = mb2_model::encode::ascii_markers(key, n, 0);
+            let mut base = text.clone();
+            base.push(0);
+            let cut = base.len();
+            let mk = |content: Vec<u8>| ParseCase { kind, content: Hex(content), cut, pad: 0x5A, next0: 0x41 };
+            let mut steps = vec![mk(base.clone())];
+            for (v, r) in vars {
+                let mut c = base.clone();
+                let at = crate::gen::pick(r, n.max(1)).min(c.len() - 1);
+                match v {
+                    0 => c[at] = 0,
+                    1 => {
+                        let l = c.len();
+                        c[l - 1] = b'x';
+                    }
+                    2 => c[at] = 0xFF,
+                    3 => {
+                        for b in c.iter_mut().skip(at) {
+                            *b = 0;
+                        }
+                    }
+                    _ => c = mb2_model::encode::ascii_markers(key ^ r as u64, n, 7).into_iter().chain([0u8]).collect(),
+                }
+                steps.push(mk(c));
+            }
+            ParseSeq { steps }
+        })
+        .boxed()
+}
+
+// --- string tags of two gigabytes and more ---------------------------------------------
+
+fn huge_ok(kind: u32, size: u32) -> Result<(), String> {
+    use std::sync::OnceLock;
+    static P: OnceLock<usize> = OnceLock::new();
+    let p = *P.get_or_init(|| unsafe {
+        let p = libc::mmap(std::ptr::null_mut(), (1usize << 32) + 4096, libc::PROT_READ | libc::PROT_WRITE, libc::MAP_PRIVATE | libc::MAP_ANONYMOUS | libc::MAP_NORESERVE, -1, 0);
+        assert!(p != libc::MAP_FAILED, "cannot reserve 4 GiB of address space");
+        p as usize
+    }) as *mut u8;
+    let fx = fixed(kind);
+    let head = unsafe { core::slice::from_raw_parts_mut(p, 64) };
+    for b in head.iter_mut() {
+        *b = 0;
+    }
+    put32(head, 0, kind);
+    put32(head, 4, size);
+    head[fx..fx + 5].copy_from_slice(b"huge\0");
+    let len = r8(size as usize);
+    let r = mb2_sandbox::run_child(|| {
+        let t = unsafe { exercise_single_tag(p, len, kind, &MbiOpts { debug: false, max_steps: 4, typed_all: true }) };
+        t.render().into_bytes()
+    });
+    let t = match r {
+        mb2_sandbox::ChildResult::Done(b) => mb2_model::transcript::Transcript::parse(&String::from_utf8_lossy(&b)).unwrap_or_default(),
+        mb2_sandbox::ChildResult::Signal(sig) => return Err(format!("crashed (signal {sig})")),
+        _ => return Err("INCONCLUSIVE: child did not report".into()),
+    };
+    let key = if kind == 2 { "t0.name" } else { "t0.cmdline" };
+    let want = Val::Str(fx, 4);
+    if t.get(key) == Some(&want) {
+        Ok(())
+    } else {
+        Err(format!("expected the text `huge` ({}), got {:?} (cast: {:?})", want.render(), t.get(key).map(|v| v.render()), t.get("t0.cast").map(|v| v.render())))
+    }
+}
+
+fn run_huge(ctx: &Ctx, rep: &mut SubReport) {
+    let mut i = 0u64;
+    for kind in KINDS {
+        for size in [0x7FFF_FFF8u32, 0x7FFF_FFFF, 0x8000_0000, 0x8000_0008, 0xC000_0000, 0xFFFF_FFF8] {
+            i += 1;
+            if !ctx.mine(i) {
+                continue;
+            }
+            rep.evaluations += 1;
+            rep.nontrivial.insert((kind as u64) << 32 | size as u64);
+            match huge_ok(kind, size) {
+                Ok(()) => {}
+                Err(m) if m.starts_with("INCONCLUSIVE") => rep.inconclusive.push(m),
+                Err(m) => {
+                    rep.violations.push(Violation { sub: "huge-tags".into(), profile: profile_name().into(), message: format!("string tag of kind {kind} with declared size {size:#x}, backed by that much (lazily mapped, zero) memory, text `huge` + NUL at its start: {m}"), case: json!({"kind": kind, "size": size}) });
+                    return;
+                }
+            }
+        }
+    }
+    rep.samples.push(json!({"declared_size": "0x80000000", "expect": "text before the first NUL"}));
+}
+
+fn replay_huge(v: &serde_json::Value) -> Result<(), String> {
+    huge_ok(v["kind"].as_u64().unwrap_or(1) as u32, v["size"].as_u64().unwrap_or(0x8000_0000) as u32)
+}
+
 const BYTES: [u8; 6] = [b'a', 0x00, 0xC3, 0xA9, 0xE2, 0xFF];
 
 fn enumerate_parse(ctx: &Ctx) -> Box<dyn Iterator<Item = ParseCase>> {
@@ -318,6 +469,24 @@ fn strategy_parse(_: &Ctx) -> BoxedStrategy<ParseCase> {
 
 pub fn subs() -> Vec<Box<dyn Sub>> {
     vec![
+        Box::new(PropSub::<ParseSeq> {
+            name: "parse-sequences",
+            rule: "2..=4 string tags of the same kind and the same declared size (texts of up to 3000 bytes) written one after the other to the same address and parsed in one process: the original, then the same tag with an earlier NUL, without a NUL, with an invalid byte, zeroed from some point, or with another text. Oracle: the NUL / UTF-8 rule applied to the bytes that are there now. Non-trivial = two tags of the same size and different content; distinct by the sequence",
+            profiles: Profiles::Both,
+            quick: 4000,
+            thorough: 200000,
+            strategy: strategy_parse_seq,
+            enumerate: None,
+            enum_exhaustive: false,
+            eval: eval_parse_seq,
+        }),
+        Box::new(LoopSub {
+            name: "huge-tags",
+            profiles: Profiles::Both,
+            rule: "command-line, boot-loader-name and module tags whose declared size is 2^31 - 8 .. 2^32 - 8 and that are really backed by that much memory (a lazily mapped 4 GiB region of zero pages), with the text `huge` and its NUL at the start: the text is returned (in a forked child). Non-trivial = every case",
+            run: run_huge,
+            replay: replay_huge,
+        }),
         Box::new(PropSub::<BuildCase> {
             name: "build",
             rule: "CommandLineTag / BootLoaderNameTag / ModuleTag constructors. Enumerated: every string over {a, e-acute, euro sign, U+10348} up to 5 (thorough 6) characters, with and without one trailing NUL, x 3 kinds; long texts of 255 ... 2^20+1 bytes at the 8/12/16/20-bit marks; generated: NUL-free strings up to 300 characters, with trailing NUL(s) / interior NUL. Oracle: stored bytes == text (+ NUL unless it already ends in NUL), size == fixed part + stored length, read-back == prefix before the first NUL. Non-trivial = multi-byte character, trailing NUL, or length 7 mod 8; distinct by (kind, text)",
